@@ -87,7 +87,8 @@ OnSend(mm, e, meta) ==
                       THEN {"C06.Mutex"} ELSE {})
                 \cup (IF tx # -1 /\ (tx = 0 \/ tx = mm.lastTx) THEN {"C03.TxId"} ELSE {})
                 \cup (IF single /\ q.sends > 0 /\ ~q.net /\ e.t < q.last + meta.T
-                      THEN {IF mm.ucHist THEN "OBS.StaleTimerAfterUserCancel" ELSE "C05.FullTimeout"} ELSE {})
+                      THEN (IF mm.ucHist THEN {"OBS.StaleTimerAfterUserCancel"}
+                            ELSE {"C05.FullTimeout"} \cup (IF mm.hist THEN {"C10.NextWorks"} ELSE {})) ELSE {})
                 \cup (IF q.expect.kind # "none" THEN {"C04.SendAfterDecision"} ELSE {})
                 \* C07: while the head of an answer is buffered, its second piece has one timeout to arrive
                 \cup (IF single /\ q.hasBuf /\ ~q.dirty /\ e.t < q.bufT + meta.T
@@ -173,6 +174,13 @@ OnRet(mm, e, meta) ==
         v4 == IF ok THEN
                    (IF WF(cmd, e.f) THEN {} ELSE {"C01.OnlyValidated"})
                    \cup (IF builtFrom THEN {} ELSE {"C07.NoCrossTransmission"})
+                   \* a result that is two consecutive pieces glued together although the second is not exactly what the
+                   \* first lacks (too long, too short, another answer's tail)
+                   \* (the checksummed framings travel over UDP; the statement does not speak about Modbus/TCP here)
+                   \cup (IF meta.kind = "udp" /\ (~\E j \in 1..Len(q.parts) : IsData(e.f, <<q.parts[j]>>))
+                          /\ (\E i \in 1..(Len(q.parts) - 1) : IsData(e.f, <<q.parts[i], q.parts[i + 1]>>)
+                                                               /\ ~Completes(cmd, q.parts[i], q.parts[i + 1]))
+                       THEN {"C07.ExactRemainder"} ELSE {})
                    \cup (IF PayloadOk(cmd, e.f, e.pf) THEN {} ELSE {"C02.Payload"})
                    \cup (IF meta.assume /\ ~OwnTag(cmd, e.f) THEN {"C06.OwnAnswer"} ELSE {})
               ELSE {}
@@ -186,8 +194,11 @@ OnRet(mm, e, meta) ==
               THEN IF mm.ucHist THEN {"OBS.StaleTimerAfterUserCancel"}
                    ELSE IF mm.hist THEN {"C05.SilentAfterHistory"} ELSE {"C04.Silent"}
               ELSE {}
+        \* (for a request that is not the first on this object this is also C10's "the next request works": something left
+        \* over from the history - a stale timer, a dead transport - cut an attempt short)
         v6 == IF single /\ ~ok /\ q.sends > 0 /\ ~q.net /\ e.t < q.last + meta.T
-              THEN {IF mm.ucHist THEN "OBS.StaleTimerAfterUserCancel" ELSE "C05.FullTimeout"} ELSE {}
+              THEN (IF mm.ucHist THEN {"OBS.StaleTimerAfterUserCancel"}
+                    ELSE {"C05.FullTimeout"} \cup (IF mm.hist THEN {"C10.NextWorks"} ELSE {})) ELSE {}
         v7 == IF others = {} /\ ~meta.ka /\ mm.open # {} THEN {"C10.NoLeak"} ELSE {}
         v8 == IF meta.ka /\ ok /\ mm.reuse.valid /\ q.sends = 1 /\ q.trs # {mm.reuse.tr}
               THEN {"C10.Reuse"} ELSE {}
